@@ -3,6 +3,6 @@
 # usage: with-seed.sh <seed-dir> <command...>
 SEED="$(realpath "$1")"; shift
 git -C /repo apply "$SEED/patch.diff" || { echo "with-seed: patch does not apply"; exit 2; }
-"$@"; rc=$?
+VP_EVIDENCE_DIR=/tmp/vp-evidence-seeded "$@"; rc=$?
 git -C /repo apply -R "$SEED/patch.diff" || echo "with-seed: WARNING could not revert $SEED"
 exit $rc
